@@ -17,7 +17,7 @@ GEN_INVARIANTS = ["Adm", "Convex", "RefAgrees", "ConeLaws", "BoxLaws", "CylLaws"
 
 PARAMS = {
     "quick": dict(level=1, random_n=60, far=24),
-    "thorough": dict(level=2, random_n=1500, far=32),
+    "thorough": dict(level=2, random_n=6000, far=32),
 }
 
 
